@@ -1,4 +1,500 @@
 package msgdrv
 
-func (d *Driver) FamHist(n int)  {}
-func (d *Driver) FamAlias(n int) {}
+import (
+	"fmt"
+	"reflect"
+	"sync"
+	"unsafe"
+
+	"github.com/CrowdStrike/csproto"
+	gogoproto "github.com/gogo/protobuf/proto"
+	"google.golang.org/protobuf/proto"
+
+	"verif/harness/tr"
+)
+
+// sizeCacheOf reads the size-cache field of a generated struct (sizeCache / XXX_sizecache) without calling any method.
+func sizeCacheOf(msg interface{}) int {
+	v := reflect.ValueOf(msg).Elem()
+	for _, name := range []string{"sizeCache", "XXX_sizecache"} {
+		f := v.FieldByName(name)
+		if f.IsValid() {
+			return int(*(*int32)(unsafe.Pointer(f.UnsafeAddr())))
+		}
+	}
+	return -1
+}
+
+// histObj is one object under a history of operations.
+type histObj struct {
+	ti  TypeInfo
+	msg interface{}
+	id  int
+}
+
+// freshBytes marshals a fresh deep copy (built by the walkers from the abstract contents) with the generated Marshal.
+func (d *Driver) freshBytes(ti TypeInfo, am AM) ([]byte, string) {
+	var out []byte
+	var err error
+	st, note := "", ""
+	guard(&st, &note, func() {
+		fresh := d.Build(ti, am)
+		out, err = fresh.(marshaler).Marshal()
+	})
+	if st == "" {
+		st = errStatus(err)
+	}
+	return out, st
+}
+
+func (d *Driver) rtSize(msg interface{}) int {
+	if pm, ok := msg.(proto.Message); ok {
+		return proto.Size(pm)
+	}
+	return gogoproto.Size(msg.(gogoproto.Message))
+}
+
+func (d *Driver) rtMarshal(msg interface{}) ([]byte, error) {
+	if pm, ok := msg.(proto.Message); ok {
+		return proto.Marshal(pm)
+	}
+	return gogoproto.Marshal(msg.(gogoproto.Message))
+}
+
+// mutate applies one direct field mutation (through the walkers, as user code assigning struct fields would) and
+// returns the new abstract contents.
+func (d *Driver) mutateAM(t string, am AM, kind string) AM {
+	m := cloneAM(am)
+	fds := d.S.must(t)
+	if len(fds) == 0 {
+		return m
+	}
+	for tries := 0; tries < 20; tries++ {
+		i := d.R.Intn(len(fds))
+		fd := fds[i]
+		af := &m.F[i]
+		switch kind {
+		case "clear":
+			if af.P == 1 && fd.C != "req" {
+				*af = emptyField(fd)
+				return m
+			}
+		case "grow":
+			switch {
+			case fd.C == "rep" && fd.K != "message":
+				af.P = 1
+				af.L = append(af.L, rndScalar(d.R, fd.K, true))
+				return m
+			case fd.C == "rep":
+				af.P = 1
+				af.L = append(af.L, mv(d.S.WithRequired(fd.T, d.S.Random(fd.T, d.R, 2, 2), d.R)))
+				return m
+			case fd.C == "map" && fd.Mv != "message":
+				e := AKV{K: rndScalar(d.R, fd.Mk, true), V: rndScalar(d.R, fd.Mv, true)}
+				dup := false
+				for _, x := range af.KV {
+					if sameInts(x.K.S, e.K.S) {
+						dup = true
+					}
+				}
+				if !dup {
+					af.P = 1
+					af.KV = append(af.KV, e)
+					sortKV(af.KV)
+					return m
+				}
+			case (fd.K == "string" || fd.K == "bytes") && fd.O == "" && fd.C != "rep" && fd.C != "map":
+				af.P = 1
+				af.V = sv(append(append([]int{}, af.V.S...), 'x', 'y', 'z'))
+				return m
+			}
+		case "shrink":
+			if fd.C == "rep" && len(af.L) > 0 {
+				af.L = af.L[:len(af.L)-1]
+				if len(af.L) == 0 {
+					*af = emptyField(fd)
+				}
+				return m
+			}
+			if (fd.K == "string" || fd.K == "bytes") && fd.C != "rep" && fd.C != "map" && len(af.V.S) > 1 {
+				af.V = sv(af.V.S[:len(af.V.S)/2])
+				return m
+			}
+		case "nested":
+			if fd.K == "message" && fd.C != "rep" && fd.C != "map" && fd.O == "" {
+				af.P = 1
+				af.V = mv(d.S.WithRequired(fd.T, d.S.Random(fd.T, d.R, 2, 3), d.R))
+				return m
+			}
+		default: // set
+			if fd.C != "rep" && fd.C != "map" && fd.K != "message" && fd.O == "" {
+				af.P = 1
+				af.V = rndScalar(d.R, fd.K, fd.C != "imp")
+				return m
+			}
+		}
+	}
+	return m
+}
+
+// applyAM makes obj hold exactly the abstract contents am by direct assignment of the changed fields
+// (the struct is rebuilt field-wise by the walkers; the size-cache field is carried over untouched).
+func (d *Driver) applyAM(o *histObj, am AM) {
+	cache := sizeCacheOf(o.msg)
+	fresh := d.Build(o.ti, am)
+	// copy all fields of fresh into the existing object, then restore the cache word: a user assigning fields
+	// never touches it
+	dst := reflect.ValueOf(o.msg).Elem()
+	src := reflect.ValueOf(fresh).Elem()
+	for i := 0; i < dst.NumField(); i++ {
+		name := dst.Type().Field(i).Name
+		if name == "sizeCache" || name == "XXX_sizecache" || name == "state" || name == "XXX_NoUnkeyedLiteral" {
+			continue
+		}
+		df := dst.Field(i)
+		sf := src.Field(i)
+		if !df.CanSet() {
+			df = reflect.NewAt(df.Type(), unsafe.Pointer(df.UnsafeAddr())).Elem()
+			sf = reflect.NewAt(sf.Type(), unsafe.Pointer(sf.UnsafeAddr())).Elem()
+		}
+		df.Set(sf)
+	}
+	_ = cache
+}
+
+func (d *Driver) histEvent(o *histObj, op string) *GEv {
+	return &GEv{C: "hist", T: d.full(o.ti), Key: o.ti.Key, Fl: o.ti.Flavour, Set: o.ti.Set, Op: op, Obj: o.id, Cache: sizeCacheOf(o.msg)}
+}
+
+// finishHist fills the post-state: projection, fresh marshal of the current contents, cache after.
+func (d *Driver) finishHist(o *histObj, e *GEv) {
+	var am AM
+	st, note := "", ""
+	guard(&st, &note, func() { am = d.Project(o.ti, o.msg) })
+	if st == "panic" {
+		e.St = "harness"
+		e.Note = note
+		d.emit(e)
+		return
+	}
+	e.M = am
+	if hasMultiMap(am) {
+		e.Multi = 1
+	}
+	fb, fst := d.freshBytes(o.ti, am)
+	e.Fresh = tr.Bytes(fb)
+	e.Dynst = fst // status of marshaling the fresh copy ("ok" | "reqerr" | ...)
+	e.Size2 = sizeCacheOf(o.msg)
+	d.emit(e)
+}
+
+var histOps = []string{"set", "set", "clear", "grow", "grow", "shrink", "nested", "size", "marshal", "marshal", "marshalto", "rtsize", "rtmarshal",
+	"unmarshal", "reset", "clone", "csize", "cmarshal"}
+
+// FamHist: operation histories on single objects (C09).
+func (d *Driver) FamHist(perType int) {
+	nobj := 0
+	for _, ti := range d.Types {
+		d.W.NextGroup()
+		t := d.full(ti)
+		for h := 0; h < perType; h++ {
+			nobj++
+			start := d.S.WithRequired(t, d.S.Random(t, d.R, 0, 4), d.R)
+			o := &histObj{ti: ti, id: nobj}
+			st, note := "", ""
+			guard(&st, &note, func() { o.msg = d.Build(ti, start) })
+			if st == "panic" {
+				continue
+			}
+			e := d.histEvent(o, "new")
+			e.St = "ok"
+			d.finishHist(o, e)
+			cur := start
+			steps := 3 + d.R.Intn(6)
+			for s := 0; s < steps; s++ {
+				op := histOps[d.R.Intn(len(histOps))]
+				e := d.histEvent(o, op)
+				var err error
+				switch op {
+				case "set", "clear", "grow", "shrink", "nested":
+					next := d.S.WithRequired(t, d.mutateAM(t, cur, op), d.R)
+					guard(&e.St, &e.Note, func() { d.applyAM(o, next) })
+					if e.St == "panic" {
+						e.St = "harness"
+					} else {
+						e.St = "ok"
+					}
+					cur = next
+				case "size":
+					guard(&e.St, &e.Note, func() { e.Size = o.msg.(sizer).Size() })
+				case "csize":
+					e.Op = "size"
+					guard(&e.St, &e.Note, func() { e.Size = csproto.Size(o.msg) })
+				case "marshal":
+					var out []byte
+					guard(&e.St, &e.Note, func() { out, err = o.msg.(marshaler).Marshal() })
+					e.Out = tr.Bytes(out)
+				case "cmarshal":
+					e.Op = "marshal"
+					var out []byte
+					guard(&e.St, &e.Note, func() { out, err = csproto.Marshal(o.msg) })
+					e.Out = tr.Bytes(out)
+				case "marshalto":
+					guard(&e.St, &e.Note, func() {
+						n := o.msg.(sizer).Size()
+						buf := make([]byte, n)
+						err = o.msg.(marshalerTo).MarshalTo(buf)
+						e.Out = tr.Bytes(buf)
+					})
+				case "rtsize":
+					guard(&e.St, &e.Note, func() { e.Size = d.rtSize(o.msg) })
+				case "rtmarshal":
+					var out []byte
+					guard(&e.St, &e.Note, func() { out, err = d.rtMarshal(o.msg) })
+					e.Out = tr.Bytes(out)
+				case "unmarshal":
+					src := d.S.WithRequired(t, d.S.Random(t, d.R, 0, 4), d.R)
+					b := d.S.Encode(t, src, EncOpts{})
+					e.B = tr.Bytes(b)
+					guard(&e.St, &e.Note, func() { err = o.msg.(unmarshaler).Unmarshal(append([]byte{}, b...)) })
+					if e.St == "" && err == nil {
+						cur = src
+					}
+				case "reset":
+					guard(&e.St, &e.Note, func() { csproto.Reset(o.msg) })
+					cur = d.S.Empty(t)
+				case "clone":
+					var c interface{}
+					guard(&e.St, &e.Note, func() { c = csproto.Clone(o.msg) })
+					if e.St == "" && c != nil {
+						// equal and independent: the clone projects to the same contents and survives a Reset of the original's copy
+						e.Eq = 0
+						cm := d.Project(ti, c)
+						if EqualAM(cm, d.Project(ti, o.msg)) {
+							e.Eq = 1
+						}
+						// continue the history on the clone
+						o.msg = c
+					}
+				}
+				if e.St == "" {
+					e.St = errStatus(err)
+				}
+				d.finishHist(o, e)
+				if e.St == "panic" || e.St == "harness" {
+					break
+				}
+			}
+		}
+	}
+}
+
+// FamReaders: N goroutines call Size/Marshal on a message nobody mutates (C09 concurrent clause); run under -race.
+func (d *Driver) FamReaders(perType, G, iters int) {
+	nobj := 1 << 20
+	for _, ti := range d.Types {
+		d.W.NextGroup()
+		t := d.full(ti)
+		for h := 0; h < perType; h++ {
+			nobj++
+			am := d.S.WithRequired(t, d.S.Random(t, d.R, 0, 5), d.R)
+			msg := d.Build(ti, am)
+			fb, fst := d.freshBytes(ti, am)
+			if fst != "ok" {
+				continue
+			}
+			type res struct {
+				size int
+				out  []byte
+				st   string
+			}
+			results := make([][]res, G)
+			o := &histObj{ti: ti, id: nobj, msg: msg}
+			e := d.histEvent(o, "new")
+			e.St = "ok"
+			d.finishHist(o, e)
+			var wg sync.WaitGroup
+			for g := 0; g < G; g++ {
+				wg.Add(1)
+				go func(g int) {
+					defer wg.Done()
+					for i := 0; i < iters; i++ {
+						var r res
+						var err error
+						note := ""
+						guard(&r.st, &note, func() {
+							if (i+g)%2 == 0 {
+								r.size = msg.(sizer).Size()
+								r.out, err = msg.(marshaler).Marshal()
+							} else {
+								r.out, err = csproto.Marshal(msg)
+								r.size = csproto.Size(msg)
+							}
+						})
+						if r.st == "" {
+							r.st = errStatus(err)
+						}
+						results[g] = append(results[g], r)
+					}
+				}(g)
+			}
+			wg.Wait()
+			// one event per distinct outcome per goroutine keeps the trace small
+			for g := 0; g < G; g++ {
+				seen := map[string]bool{}
+				for _, r := range results[g] {
+					k := fmt.Sprint(r.size, r.st, string(r.out))
+					if seen[k] {
+						continue
+					}
+					seen[k] = true
+					e := &GEv{C: "hist", T: t, Key: ti.Key, Fl: ti.Flavour, Set: ti.Set, Op: "marshal", Obj: nobj, St: r.st, Out: tr.Bytes(r.out), M: am, Fresh: tr.Bytes(fb), Dynst: "ok", Mode: g + 1}
+					if hasMultiMap(am) {
+						e.Multi = 1
+					}
+					d.emit(e)
+					e2 := *e
+					e2.Op, e2.Size, e2.Out = "size", r.size, nil
+					d.emit(&e2)
+				}
+			}
+		}
+	}
+}
+
+// ---------------------------------------------------------------------------------------------
+// C10: safe-mode decoding never aliases the caller's buffer
+
+// overlaps reports whether any []byte / string reachable from v points into buf.
+func overlaps(v reflect.Value, lo, hi uintptr, depth int, kinds map[string]bool) bool {
+	if depth > 8 {
+		return false
+	}
+	switch v.Kind() {
+	case reflect.Ptr, reflect.Interface:
+		if v.IsNil() {
+			return false
+		}
+		return overlaps(v.Elem(), lo, hi, depth+1, kinds)
+	case reflect.Struct:
+		for i := 0; i < v.NumField(); i++ {
+			f := v.Field(i)
+			if !f.CanInterface() {
+				if f.Kind() == reflect.Slice && f.Type().Elem().Kind() == reflect.Uint8 && f.CanAddr() {
+					f = reflect.NewAt(f.Type(), unsafe.Pointer(f.UnsafeAddr())).Elem()
+				} else {
+					continue
+				}
+			}
+			overlaps(f, lo, hi, depth+1, kinds)
+		}
+	case reflect.Slice:
+		if v.Type().Elem().Kind() == reflect.Uint8 {
+			if v.Len() == 0 {
+				return false
+			}
+			p := v.Pointer()
+			if p >= lo && p < hi {
+				kinds["bytes"] = true
+			}
+			return len(kinds) > 0
+		}
+		for i := 0; i < v.Len(); i++ {
+			overlaps(v.Index(i), lo, hi, depth+1, kinds)
+		}
+	case reflect.Map:
+		it := v.MapRange()
+		for it.Next() {
+			overlaps(it.Key(), lo, hi, depth+1, kinds)
+			overlaps(it.Value(), lo, hi, depth+1, kinds)
+		}
+	case reflect.String:
+		if v.Len() == 0 {
+			return false
+		}
+		p := uintptr(unsafe.Pointer(unsafe.StringData(v.String())))
+		if p >= lo && p < hi {
+			kinds["string"] = true
+		}
+	}
+	return len(kinds) > 0
+}
+
+// FamAlias: Unmarshal, project, clobber / recycle the input buffer, project again.
+func (d *Driver) FamAlias(perType int) {
+	for _, ti := range d.Types {
+		d.W.NextGroup()
+		t := d.full(ti)
+		vals := d.S.SingleFieldValues(t, d.R)
+		for n := 0; n < perType; n++ {
+			var am AM
+			if n%2 == 0 {
+				am = vals[d.R.Intn(len(vals))]
+			} else {
+				am = d.S.Random(t, d.R, 0, 6)
+			}
+			am = d.S.WithRequired(t, cloneAM(am), d.R)
+			o := EncOpts{}
+			if d.R.Intn(2) == 0 {
+				o = EncOpts{R: d.R, Unknown: true}
+			}
+			b := d.S.Encode(t, am, o)
+			if len(b) == 0 {
+				continue
+			}
+			e := &GEv{C: "alias", T: t, Key: ti.Key, Fl: ti.Flavour, Set: ti.Set, B: tr.Bytes(b)}
+			if ti.Set == "unsafe" {
+				e.Mode = 1
+			}
+			in := make([]byte, len(b), len(b)+8)
+			copy(in, b)
+			dst := ti.New()
+			var err error
+			guard(&e.St, &e.Note, func() { err = dst.(unmarshaler).Unmarshal(in) })
+			if e.St == "" {
+				e.St = errStatus(err)
+			}
+			if e.St != "ok" {
+				e.St = "harness" // a valid canonical encoding must unmarshal (C06's business); nothing to observe here
+				e.Note = "unmarshal failed: " + e.Note
+				continue
+			}
+			before := d.Project(ti, dst)
+			lo := uintptr(unsafe.Pointer(&in[0]))
+			e.Size = 0
+			kinds := map[string]bool{}
+			if overlaps(reflect.ValueOf(dst), lo, lo+uintptr(len(in)), 0, kinds) {
+				e.Size = 1 // some string / bytes value points into the caller's buffer
+				for _, k := range []string{"bytes", "string"} {
+					if kinds[k] {
+						e.Op += k + ","
+					}
+				}
+			}
+			switch d.R.Intn(3) {
+			case 0:
+				for i := range in {
+					in[i] = 0xEE
+				}
+				e.Lbl = "overwrite"
+			case 1:
+				for i := range in {
+					in[i] ^= 0x5A
+				}
+				in = in[:len(in)/2]
+				e.Lbl = "truncate"
+			default:
+				other := d.S.Encode(t, d.S.WithRequired(t, d.S.Random(t, d.R, 0, 6), d.R), EncOpts{})
+				copy(in, other)
+				e.Lbl = "recycle"
+			}
+			after := d.Project(ti, dst)
+			e.M, e.Dyn = before, after
+			e.Eq = 0
+			if EqualAM(before, after) {
+				e.Eq = 1
+			}
+			d.emit(e)
+		}
+	}
+}
